@@ -10,8 +10,9 @@ AST2SCFGTransformer is known (and, for the for-loop, documented) to do wrongly:
   test of the first operand is emitted (`y = 1 or (True and O[3])` reads O[3]);
 * the for-loop desugaring of the `handle_for` docstring: `target = None` before
   the loop, the previous iteration's value restored on exhaustion (so the
-  target is clobbered by an empty iterable, and a tuple target dies with
-  TypeError in the pre-header).
+  target is clobbered by an empty iterable).  Targets that are not a plain
+  name were repaired (repo commit 94af376: they go through a temporary and are
+  neither pre-assigned nor restored); the model follows the repaired code there.
 
 The result R_def is an ordinary Python function.  ENVSIM consults it only after
 a mismatch between the reference R and T/B: when T/B behaves exactly like R_def
@@ -124,18 +125,24 @@ class _Model:
             k = self.nl
             it, last, flag = "__dm_iter_%d__" % k, "__dm_last_%d__" % k, "__dm_else_%d__" % k
             target = ast.unparse(st.target)
-            pre_src = "%s = iter(%s)\n%s = None\n" % (it, ast.unparse(st.iter), target)
+            simple = isinstance(st.target, ast.Name)
+            # since fix "for-loops with structured targets": a target that is not a
+            # plain name is neither pre-assigned nor restored; the item goes through a
+            # temporary and is unpacked at the top of the body (correct semantics)
+            nxt = target if simple else "__dm_next_%d__" % k
+            pre_src = "%s = iter(%s)\n" % (it, ast.unparse(st.iter)) + ("%s = None\n" % target if simple else "")
             out = []
             for s in ast.parse(pre_src).body:
                 out += self.stmt(s)
-            head = ast.parse("%s = %s\n%s = next(%s, %r)\n" % (last, target, target, it, SENTINEL)).body
-            leave = ast.parse("if not (%s != %r):\n    %s = True\n    break\n" % (target, SENTINEL, flag)).body
-            body = self.block(st.body)
+            head = ast.parse(("%s = %s\n" % (last, target) if simple else "") + "%s = next(%s, %r)\n" % (nxt, it, SENTINEL)).body
+            leave = ast.parse("if not (%s != %r):\n    %s = True\n    break\n" % (nxt, SENTINEL, flag)).body
+            body = ([] if simple else ast.parse("%s = %s\n" % (target, nxt)).body) + self.block(st.body)
             out.append(ast.Assign([ast.Name(flag, ast.Store())], ast.Constant(False), lineno=0))
             out.append(ast.While(ast.Constant(True), head + leave + body, []))
-            restore = ast.parse("%s = %s\n" % (target, last)).body
+            restore = ast.parse("%s = %s\n" % (target, last)).body if simple else []
             orelse = self.block(st.orelse) if st.orelse else []
-            out.append(ast.If(ast.Name(flag, ast.Load()), restore + orelse, []))
+            if restore or orelse:
+                out.append(ast.If(ast.Name(flag, ast.Load()), restore + orelse, []))
             return out
         return [st]
 
